@@ -127,6 +127,7 @@ Plan gen_w5(uint64_t seed, const std::string& tier, const std::string& focus) {
     static const double rhos[] = {0.1, 0.12, 0.15, 0.2, 0.25, 0.3, 0.35}; pl.p["rho"] = rhos[r.below(thorough ? 7 : 7)]; if (thorough && r.coin(0.2)) pl.p["rho"] = r.uni(0.08, 0.15);
     pl.p["size"] = r.coin(0.7) ? 5e-6 : 1.0; pl.p["triangulate"] = r.coin(0.78); pl.p["mode"] = r.coin(0.7) ? 0 : 1; if (!pl.geti("triangulate")) pl.p["mode"] = 0;
     int n = r.coin(0.7) ? 1 : r.range(2, 3); pl.p["ncells"] = n; for (int k = 0; k < n; k++) { pl.p["c" + std::to_string(k) + "_poly"] = (int)r.below(6); pl.p["c" + std::to_string(k) + "_res"] = r.coin(0.7) ? 1 : 2; }
+    if (pl.geti("triangulate") && r.coin(0.06)) { pl.p["rho"] = r.uni(0.075, 0.09); pl.p["ncells"] = 1; }   // a fine reconstruction: sampling grids of more than 10^4 voxels (shape extent 2 size, voxel l_min)
     if (r.coin(0.2)) pl.p["off"] = pl.p["size"] * std::pow(10.0, r.range(0, 2));
     { double u = r.uni(); pl.p["windings"] = u < 0.7 ? 0 : (u < 0.85 ? 1 : 2); }
     if (pl.geti("triangulate") && pl.geti("mode") == 0 && r.coin(0.3)) { pl.p["inject_failures"] = r.coin(0.3) ? 10 : r.range(1, 9); static const int ty[] = {sim::EX_INIT_TRI, sim::EX_BPA, sim::EX_MESH_INTEGRITY}; pl.p["inject_type"] = ty[r.below(3)]; if (pl.geti("inject_failures") == 10) pl.p["ncells"] = 1; }
